@@ -283,14 +283,29 @@ func c03FreshCopies(r *an.Run) {
 			}
 			n++
 			fresh := false
-			allocates := func(v ssa.Value) bool {
+			var allocatesD func(v ssa.Value, depth int) bool
+			allocatesD = func(v ssa.Value, depth int) bool {
 				for x := range an.BackSlice(v, an.SliceOpts{ThroughCalls: true}) {
 					if c, ok := x.(*ssa.Call); ok && an.IsCallTo(c, "reflect.New", "reflect.MakeSlice", "reflect.Zero") {
 						return true
 					}
 				}
+				// newValueOf(t, x): a private constructor every return of which is a value it allocated
+				if c, ok := v.(*ssa.Call); ok && depth < 2 {
+					if g := an.StaticCallee(c); g != nil && an.InModule(g) && g.Blocks != nil && g.Signature.Results().Len() == 1 {
+						rets := an.Returns(g)
+						all := len(rets) > 0
+						for _, gr := range rets {
+							if !allocatesD(gr.Results[0], depth+1) {
+								all = false
+							}
+						}
+						return all
+					}
+				}
 				return false
 			}
+			allocates := func(v ssa.Value) bool { return allocatesD(v, 0) }
 			if viaHelper != nil {
 				fresh = true
 				for _, hr := range an.Returns(viaHelper) {
